@@ -80,6 +80,9 @@ func VH_C02() {
 		flags = Flags(vInt()) | LnoInterrupt
 		knownPathRegexpMap = nil
 	}
+	if vParam("testmode", 0) == 1 {
+		inTesting = true // a test process: error values are dumped after the record, in the same single payload
+	}
 	rec := &vRec{}
 	lg := New("x").(*logimp).Entry
 	lg.SetWriter(&recW{0, rec}).AddWriter(&recLW{1, rec}).SetErrorWriter(&recW{2, rec})
